@@ -34,7 +34,7 @@ theorem C12_tie_callsites :
     Gen.calls_handleShareCreation = ["validatorAddedEventToShare", "BelongsToOperator", "AddShare", "Save"] ∧
     Gen.calls_handleValidatorRemoved = ["Get", "CleanAllInstances", "Each", "Delete", "BelongsToOperator", "RemoveShare"] ∧
     Gen.calls_handleClusterReactivated = ["processClusterEvent", "BumpSlashingProtection"] ∧
-    Gen.calls_ekm_AddShare = ["AccountByPublicKey", "BumpSlashingProtection", "saveShare"] ∧
+    Gen.calls_ekm_AddShare = ["AccountByPublicKey", "bumpSlashingProtection", "saveShare"] ∧
     Gen.calls_ekm_RemoveShare =
       ["AccountByPublicKey", "RemoveHighestAttestation", "RemoveHighestProposal", "DeleteAccountByPublicKey"] ∧
     Gen.calls_wallet_AddValidatorAccount = ["SaveAccount", "SaveWallet"] ∧
